@@ -348,8 +348,12 @@ func vAssertWellFormed(w vWire, ver byte, maxSize uint32) {
 			vAssert("wire-publish-topic-no-wildcard", !vHasWildcard(p.Topic))
 		}
 		if ver < 5 {
+			// recorded classes (both pinned by existing tests): DisconnectClient writes a DISCONNECT whatever the
+			// protocol version, and SendConnack passes MQTT 5 reason codes it has no mapping for through to v3 clients
+			vAssert("kf-disconnect-packet-written-to-an-mqtt3-client", p.Type != 14)
 			vAssert("wire-v3-no-disconnect-or-auth", p.Type != 14 && p.Type != 15)
 			if p.Type == 2 {
+				vAssert("kf-v3-connack-carries-an-unmapped-mqtt5-reason-code", p.Reason < 0x80)
 				vAssert("wire-v3-connack-code-0-5", p.Reason <= 5)
 			}
 			if p.Type == 9 {
